@@ -49,7 +49,8 @@ TWrite ==
   /\ LET w == W(E) IN
      IF ~Pre THEN Harness("harness-tree-changed-between-calls")
      ELSE IF WriteOK(w)
-     THEN IF ~AscendingHistory(w) THEN Harness("harness-write-not-ascending")
+     \* C12 quantifies over ascending write sequences; C20 over all interleavings of write calls (scenario flag anyorder)
+     THEN IF ~(Has(Hdr, "anyorder") /\ Hdr.anyorder) /\ ~AscendingHistory(w) THEN Harness("harness-write-not-ascending")
           ELSE IF E.resp # "ok" THEN RejU({"C12-valid-write-refused"}) /\ UNCHANGED vars
           ELSE WriteBatch(w, E.h1) /\ AfterWrite
      ELSE IF HasDup(w)
